@@ -17,8 +17,12 @@ import (
 	"github.com/containerd/nri/pkg/api"
 	"github.com/containers/nri-plugins/pkg/agent"
 	"github.com/containers/nri-plugins/pkg/agent/podresapi"
+	cfgpolicy "github.com/containers/nri-plugins/pkg/apis/config/v1alpha1/resmgr/policy"
+	blncfg "github.com/containers/nri-plugins/pkg/apis/config/v1alpha1/resmgr/policy/balloons"
 	"github.com/containers/nri-plugins/pkg/resmgr/cache"
 	"google.golang.org/grpc"
+	"google.golang.org/grpc/codes"
+	"google.golang.org/grpc/status"
 	podres "k8s.io/kubelet/pkg/apis/podresources/v1"
 
 	"verif/harness/sysgen"
@@ -28,26 +32,47 @@ import (
 
 type fakeKubelet struct {
 	podres.UnimplementedPodResourcesListerServer
-	delay atomic.Int64 // microseconds
-	calls atomic.Int64
-	srv   *grpc.Server
-	sock  string
+	delay   atomic.Int64 // microseconds
+	failPct atomic.Int64 // percentage of calls answered with an error
+	hang    atomic.Int64 // microseconds; > the client's timeout: the call ends by deadline on the client side
+	calls   atomic.Int64
+	failed  atomic.Int64
+	hung    atomic.Int64
+	srv     *grpc.Server
+	sock    string
 }
 
-func (k *fakeKubelet) wait() {
-	k.calls.Add(1)
+// wait delays the answer and decides, from the call number alone, whether this call fails.
+func (k *fakeKubelet) wait(ctx context.Context) error {
+	n := k.calls.Add(1)
 	if d := k.delay.Load(); d > 0 {
 		time.Sleep(time.Duration(d) * time.Microsecond)
 	}
+	if h := k.hang.Load(); h > 0 {
+		k.hung.Add(1)
+		select {
+		case <-ctx.Done():
+		case <-time.After(time.Duration(h) * time.Microsecond):
+		}
+	}
+	if pct := k.failPct.Load(); pct > 0 && int64((uint64(n)*0x9E3779B97F4A7C15>>33)%100) < pct {
+		k.failed.Add(1)
+		return status.Error(codes.Unavailable, "fake kubelet: injected failure")
+	}
+	return nil
 }
 
 func (k *fakeKubelet) List(ctx context.Context, r *podres.ListPodResourcesRequest) (*podres.ListPodResourcesResponse, error) {
-	k.wait()
+	if err := k.wait(ctx); err != nil {
+		return nil, err
+	}
 	return &podres.ListPodResourcesResponse{}, nil
 }
 
 func (k *fakeKubelet) Get(ctx context.Context, r *podres.GetPodResourcesRequest) (*podres.GetPodResourcesResponse, error) {
-	k.wait()
+	if err := k.wait(ctx); err != nil {
+		return nil, err
+	}
 	return &podres.GetPodResourcesResponse{PodResources: &podres.PodResources{Name: r.PodName, Namespace: r.PodNamespace,
 		Containers: []*podres.ContainerResources{{Name: "c0"}, {Name: "c1"}}}}, nil
 }
@@ -187,8 +212,34 @@ func RunRaceHistory(o HistOpts) *HistResult {
 	var inst *Inst
 	var err error
 	stateDir := filepath.Join(o.WorkDir, fmt.Sprintf("state-%d", o.Hist))
+	// Every fourth history races REJECTED reconfigurations against container creation: the configuration in force
+	// confines the plugin to one half (A) of the CPUs, the rejected one - refused only after the policy has started to
+	// apply it - to two CPUs of the other half. In any sequential order a rejected update has no effect, so no
+	// CreateContainer reply may pin to CPUs outside the available sets of the configurations accepted so far.
+	var halfA, halfB []int
+	if o.Hist%4 == 3 {
+		iso := SetOf(mach.Isolated)
+		var cand []int
+		for _, c := range mach.OnlineCPUs() {
+			if !iso.Has(c) {
+				cand = append(cand, c)
+			}
+		}
+		if len(cand) >= 8 {
+			halfA, halfB = cand[:len(cand)/2], cand[len(cand)/2:]
+		}
+	}
 	for try := 0; try < 8; try++ {
 		cfg = g.Config()
+		if halfA != nil {
+			av := cfgpolicy.Constraints{"cpu": cfgpolicy.Amount("cpuset:" + sysgen.CPUList(halfA))}
+			rs := cfgpolicy.Constraints{"cpu": cfgpolicy.Amount(fmt.Sprintf("cpuset:%d", halfA[0]))}
+			if cfg.Policy == PolTA {
+				cfg.TA.AvailableResources, cfg.TA.ReservedResources = av, rs
+			} else {
+				cfg.Bln.AvailableResources, cfg.Bln.ReservedResources = av, rs
+			}
+		}
 		os.RemoveAll(stateDir)
 		if inst, err = NewInst(stateDir, cfg); err == nil {
 			break
@@ -212,6 +263,25 @@ func RunRaceHistory(o HistOpts) *HistResult {
 	r.Props = map[string]bool{"C15": true, "C14": true}
 	r.NoShadow = true
 	defer func() { r.Inst.Close() }()
+	if halfA != nil {
+		bad := cfg.Clone()
+		av := cfgpolicy.Constraints{"cpu": cfgpolicy.Amount("cpuset:" + sysgen.CPUList(halfB[:2]))}
+		rs := cfgpolicy.Constraints{"cpu": cfgpolicy.Amount(fmt.Sprintf("cpuset:%d", halfB[0]))}
+		if cfg.Policy == PolTA {
+			bad.TA.AvailableResources, bad.TA.ReservedResources = av, rs
+		} else {
+			bad.Bln.AvailableResources, bad.Bln.ReservedResources = av, rs
+			bad.Bln.BalloonDefs = append(bad.Bln.BalloonDefs, &blncfg.BalloonDef{Name: "toobig", MinCpus: 4, MinBalloons: 1})
+		}
+		bad.Note = "race:infeasible"
+		r.RaceBadCfg = bad
+		r.RaceAllowed = SetOf(halfA)
+		// an anchor the two CPUs of the rejected configuration cannot hold
+		r.Do(&Step{Op: "runpod", Pod: "anchor", NS: "default", QoS: "Guaranteed"})
+		r.Do(&Step{Op: "create", Pod: "anchor", Ctr: "anchor.c", Name: "c0", Req: 2000, Lim: 2000, MemLim: 64 << 20, MemReq: 64 << 20})
+		r.Do(&Step{Op: "start", Pod: "anchor", Ctr: "anchor.c"})
+		res.Stats["c15_rejected_reconf_race_histories"]++
+	}
 	// benign sequential prefix
 	for i := 0; i < 8 && !r.Broken; i++ {
 		s := g.NextStep(r)
@@ -224,10 +294,18 @@ func RunRaceHistory(o HistOpts) *HistResult {
 		r.Do(s)
 	}
 	var stamp atomic.Int64
+	hungOnce := false
 	bursts := o.Steps / 4
 	for b := 0; b < bursts && !r.Broken; b++ {
 		if kub != nil {
 			kub.delay.Store(int64(rng.Intn(3000)))
+			// the fetch may fail or run into the client's timeout (1 s for Get, 2 s for List): nobody may wait for it for ever
+			kub.failPct.Store(int64(sysgen.Pick(rng, []int{0, 0, 0, 30, 100})))
+			kub.hang.Store(0)
+			if !hungOnce && rng.Chance(1, 12) {
+				hungOnce = true
+				kub.hang.Store(1200000)
+			}
 		}
 		k := rng.Range(2, 6)
 		ops := r.pickBurst(g, k)
@@ -271,7 +349,7 @@ func RunRaceHistory(o HistOpts) *HistResult {
 		go func() { wg.Wait(); close(done) }()
 		select {
 		case <-done:
-		case <-time.After(120 * time.Second):
+		case <-time.After(60 * time.Second):
 			d1 := allStacks()
 			time.Sleep(5 * time.Second)
 			select {
@@ -281,7 +359,7 @@ func RunRaceHistory(o HistOpts) *HistResult {
 				d2 := allStacks()
 				if blockedHandlers(d1) != "" && blockedHandlers(d1) == blockedHandlers(d2) {
 					res.Viol = append(res.Viol, Violation{Prop: "C15", Check: "deadlock", Sig: o.Policy, Hist: o.Hist,
-						Msg: "handlers of a burst did not return within 125 s and are parked in the same lock/channel waits in two dumps 5 s apart:\n" + blockedHandlers(d2)})
+						Msg: "handlers of a burst did not return within 65 s and are parked in the same lock/channel waits in two dumps 5 s apart:\n" + blockedHandlers(d2)})
 				} else {
 					res.Stats["c15_watchdog_inconclusive"]++
 				}
@@ -359,6 +437,25 @@ func RunRaceHistory(o HistOpts) *HistResult {
 		default:
 			res.Stats["c15_linearizable_bursts"]++
 		}
+		// A rejected reconfiguration whose revert fails leaves the policy on the rejected configuration's CPUs (known
+		// finding KF3/KF6, sequential code): requests after it then legitimately see those CPUs. That is not what the
+		// saw-rejected-config clause is about; stop checking it in this history.
+		if r.RaceAllowed != nil {
+			eff := IntSet{}
+			if sn := r.Inst.TASnap(); sn != nil {
+				eff = SetOf(sn.Allowed)
+			} else if sn := r.Inst.BlnSnap(); sn != nil {
+				eff = SetOf(sn.FreeCpus)
+				for i := range sn.Balloons {
+					eff = eff.Union(SetOf(sn.Balloons[i].Cpus))
+				}
+			}
+			if !eff.SubsetOf(r.RaceAllowed) {
+				r.RaceAllowed = nil
+				r.RaceBadCfg = nil
+				r.Count("c15_rejected_reconf_not_reverted")
+			}
+		}
 		// fold results into the runtime model, then run the state-invariant monitors
 		for i, op := range ops {
 			op.fold(replies[i])
@@ -390,6 +487,8 @@ func RunRaceHistory(o HistOpts) *HistResult {
 		r.runMonitors(&Step{Op: "burst"}, &Reply{})
 		if kub != nil {
 			res.Stats["c15_kubelet_calls"] = int(kub.calls.Load())
+			res.Stats["c15_kubelet_calls_failed"] = int(kub.failed.Load())
+			res.Stats["c15_kubelet_calls_hung"] = int(kub.hung.Load())
 		}
 	}
 	// fetch visibility at cache level (the statement's last sentence)
@@ -546,6 +645,12 @@ func (r *Runner) pickBurst(g *Gen, k int) []burstOp {
 					c.State = StCreated
 					r.AllocCfg[c.Key] = []*Config{r.Inst.Cfg}
 				}
+				if cpus := rep.Adjust.GetLinux().GetResources().GetCpu().GetCpus(); r.RaceAllowed != nil && cpus != "" {
+					r.Count("c15_create_replies_checked_against_accepted_configs")
+					if got := SetOf(MustList(cpus)); !got.SubsetOf(r.RaceAllowed) {
+						r.Violate("C15", "saw-rejected-config", r.Inst.Policy, "a CreateContainer reply pins %s to CPUs %s, outside the available CPUs %s of every configuration accepted so far: it ran between a rejected reconfiguration and its revert (no sequential order of the requests explains it)", c.Key, got.Minus(r.RaceAllowed), r.RaceAllowed)
+					}
+				}
 			}})
 		case 4:
 			if len(created) == 0 {
@@ -652,12 +757,32 @@ func (r *Runner) pickBurst(g *Gen, k int) []burstOp {
 			same := cfg.Clone()
 			same.Gen = cfg.Gen + 1000 + int64(tries)
 			same.Note = "same"
+			bad := false
+			if r.RaceBadCfg != nil && !usedPod["*bad*"] {
+				usedPod["*bad*"] = true
+				same = r.RaceBadCfg.Clone()
+				same.Gen = cfg.Gen + 5000 + int64(tries)
+				bad = true
+			}
 			rc := same.ResmgrConfig()
 			out = append(out, burstOp{op: &raceOp{Op: "reconf"}, call: func() *Reply {
 				rep := &Reply{}
 				rep.Panic = r.guardQuiet("reconf", func() { rep.Err = errStr(rm.Reconfigure(rc)) })
 				return rep
-			}, fold: func(*Reply) {}})
+			}, fold: func(rep *Reply) {
+				if !bad {
+					return
+				}
+				if rep.Err != "" {
+					r.Count("c15_rejected_reconfs_raced")
+					return
+				}
+				// the policy took it after all: from now on its CPUs are legitimate too
+				r.Count("c15_infeasible_config_accepted")
+				r.RaceAllowed = nil
+				r.RaceBadCfg = nil
+				r.Inst.Cfg = same
+			}})
 		}
 	}
 	return out
